@@ -155,6 +155,12 @@ class Cx:
             except AnchorMissing as e:
                 self.insts.append(Inst(self.cur, "anchor-missing:%s" % e, False,
                                        "anchor-missing: %s no longer exists; the rule table must be re-read" % e))
+            except Exception as e:  # a rule that cannot interpret the code it finds fails closed, as a report
+                import traceback
+                tb = traceback.extract_tb(e.__traceback__)
+                where = "%s:%d" % (tb[-1].filename.rsplit("/", 1)[-1], tb[-1].lineno) if tb else "?"
+                self.insts.append(Inst(self.cur, "unrecognised-shape", False,
+                                       "the code at this obligation's sites has a shape the rule cannot interpret (%s: %s at %s); the obligation is undecided and reported" % (type(e).__name__, str(e)[:120], where)))
             mine = self.insts[n0:]
             nok = sum(1 for i in mine if i.ok)
             if nok < ob["floor"] and all(i.ok for i in mine):
